@@ -52,9 +52,11 @@ is not a name (`(e)(..)`, `e[i](..)`, `f(..)(..)`), a macro whose loop-variable 
 identifier.  Not modelled at all: functions bound by the caller (hence no call log), identifiers naming
 stored programs.  `Frag2` further excludes trees `evalSpec` does define but the compiled code does not
 follow: an uncalled member access `o.f` where `f` names a function or macro (the VM leaves a bound
-method, no value), and — because of two defects of the folding rule `check_for_const`, see `methodOK`
-and `loopVarOK` below — `has`/`coalesce` in method position and loop variables named like a built-in
-function or macro; type patterns must name a type of the type table.
+method, no value), and — see `methodOK` and `loopVarOK` below — `has`/`coalesce` in method position and
+loop variables named like a built-in function or macro (the two places where the compile-time run of
+`check_for_const` meets a name it cannot resolve; since fix 4d08d12 it does not fold then, and the model
+follows, but the invariant of the proof does not see that flag); type patterns must name a type of the
+type table.
 `Frag` is the smaller fragment of `Theorems/C05Compile.lean`; `Frag2` the one of `Theorems/C05Compile2.lean`.
 -/
 namespace Rscel
@@ -427,8 +429,12 @@ def callableName (B : Builtins) (name : Str) : Bool :=
 
 /-- An argument that may serve as loop variable: an identifier that is not the name of a built-in function
     or macro.  (A loop variable named like a function is outside the fragment: `check_for_const` takes such a
-    name for closed, so an inner call such as `dyn([size])` in `[1].map(size, dyn([size]))` is folded with
-    `size` unbound — a defect of the folding rule, reproduced by the model.) -/
+    name for closed, so the compiler runs an inner call such as `dyn([size])` in `[1].map(size, dyn([size]))`
+    with `size` unbound.  Before fix 4d08d12 it froze the result; now that run sets the interpreter's
+    unresolved-name flag (`markUnres`) and the call is not folded — code and model.  The side condition stays
+    because the proof of `fold_sound2_partial` argues "closed code has the same value in every standard
+    environment" (`Irr`), which is false for such a tree and does not look at the flag; the correspondence run
+    of facet C09 covers these trees instead.) -/
 def loopVarOK (B : Builtins) (a : Ast) : Bool :=
   match identOf a with
   | some x => !callableName B x
@@ -454,10 +460,13 @@ def macroShape (B : Builtins) (name : Str) (args : List Ast) : Bool :=
   else true
 
 /-- `has` / `coalesce` in *method* position (`o.has(..)`) are outside the fragment: the compiler does not
-    know these two macros, the name of a method is not among the identifiers `check_for_const` inspects,
-    and so an enclosing closed call is folded with the Runtime failure the compiler gets for them
-    (`dyn([[1].has(1)])` is `[<failure>]` while `[[1].has(1)]` is `[true]` — a defect of the folding rule,
-    reproduced by the model).  In function position (`has(..)`, `coalesce(..)`) they are covered. -/
+    know these two macros and the name of a method is not among the identifiers `check_for_const` inspects,
+    so the compile-time run of an enclosing closed call gets an Attribute / Runtime failure for them where
+    the run-time bindings have a macro.  Before fix 4d08d12 that was frozen (`dyn([[1].has(1)])` was
+    `[<failure>]` while `[[1].has(1)]` is `[true]`); now the run sets the unresolved-name flag (`markUnres`)
+    and the call is not folded — code and model.  The side condition stays for the same reason as in
+    `loopVarOK` (`AgreeOn.meth` of `Theorems/C05Compile2.lean` needs the method to mean the same at compile
+    time and at run time).  In function position (`has(..)`, `coalesce(..)`) they are covered. -/
 def methodOK (B : Builtins) (name : Str) : Bool :=
   (B.func name).isSome || !(name = "has".toList || name = "coalesce".toList)
 
